@@ -11,6 +11,7 @@ import Rsp.Spec.Log
 import Rsp.Model.Radmsg
 import Rsp.Spec.Radmsg
 import Rsp.Model.DynRealm
+import Rsp.Spec.Cert
 
 namespace Drive
 open Rsp
@@ -148,6 +149,114 @@ def showSer (r : Radmsg.SerRes) : String :=
   | .fail => "fail"
   | .fault => "fault:oobWrite"
   | .ok b a => s!"ok {toHex b} {toHex a}"
+
+/-! ### certificate authorisation (vcert) -/
+
+def kvTok (args : List String) (key : String) : Option String :=
+  args.findSome? fun a => if a.startsWith (key ++ "=") then some (a.drop (key.length + 1)).toString else none
+
+def parseHostPlen (t : String) : Option (Bytes × Nat) :=
+  match t.splitOn "/" with
+  | [h, p] => do pure ((← ofHex h), (← p.toNat?))
+  | _ => none
+
+def parseIPv4 (t : String) : Option Bytes :=
+  match (t.splitOn ".").mapM (·.toNat?) with
+  | some [a, b, c, d] => if a < 256 ∧ b < 256 ∧ c < 256 ∧ d < 256 then some [UInt8.ofNat a, UInt8.ofNat b, UInt8.ofNat c, UInt8.ofNat d] else none
+  | _ => none
+
+/-- the pattern `compileregex` hands to regcomp for `/re/` or `/re` -/
+def certRegex (t : String) : Option Bytes :=
+  if !t.startsWith "/" then none else
+  let r := (t.drop 1).toString
+  let r := if r.endsWith "/" then (r.dropEnd 1).toString else r
+  if r.isEmpty then none else some r.toUTF8.toList
+
+def parseTerm (hexTerm : String) : Option Cert.Term := do
+  let b ← ofHex hexTerm
+  let t := String.fromUTF8! ⟨b.toArray⟩
+  match t.splitOn ":" with
+  | "CN" :: rest => (certRegex (":".intercalate rest)).map .cn
+  | "SubjectAltName" :: "DNS" :: rest => (certRegex (":".intercalate rest)).map .dns
+  | "SubjectAltName" :: "URI" :: rest => (certRegex (":".intercalate rest)).map .uri
+  | ["SubjectAltName", "IP", a] => (parseIPv4 a).map .ip
+  | ["SubjectAltName", "rID", o] => some (.rid o)
+  | "SubjectAltName" :: "otherName" :: o :: rest => (certRegex (":".intercalate rest)).map (.other o)
+  | _ => none
+
+def parseSan (t : String) : Option Cert.SanVal :=
+  match t.splitOn ":" with
+  | ["dns", h] => (ofHex h).map .dns
+  | ["uri", h] => (ofHex h).map .uri
+  | ["ip", h] => (ofHex h).map .ip
+  | ["rid", o] => some (.rid o)
+  | ["on", o, ty, h] => (ofHex h).map fun v => .other o (if ty = "utf8" || ty = "ia5" || ty = "octet" then some v else none)
+  | _ => none
+
+structure VCert where
+  conf : Cert.Conf
+  cert : Cert.Cert
+  connected : Option (Bytes × Nat)
+  realm : Option Bytes
+
+def optHex (t : Option String) : Option (Option Bytes) :=
+  match t with
+  | none => some none
+  | some "." => some none
+  | some h => (ofHex h).map some
+
+def parseVCert (args : List String) : Option VCert := do
+  let sn ← optHex (kvTok args "servername")
+  let realm ← optHex (kvTok args "realm")
+  let connected ← match kvTok args "connected" with
+    | none => some none | some "." => some none
+    | some t => (parseHostPlen t).map some
+  let hosts ← match kvTok args "hosts" with
+    | none => some [] | some "." => some []
+    | some t => (t.splitOn ",").mapM parseHostPlen
+  let terms ← match kvTok args "terms" with
+    | none => some [] | some "." => some []
+    | some t => (t.splitOn ";").mapM parseTerm
+  let cns ← match kvTok args "cn" with
+    | none => some [] | some "." => some []
+    | some t => (t.splitOn ",").mapM ofHex
+  let sans ← match kvTok args "san" with
+    | none => some none | some "none" => some none
+    | some "." => some (some [])
+    | some t => ((t.splitOn ",").mapM parseSan).map some
+  pure { conf := { nameCheck := (kvTok args "namecheck").getD "1" = "1", cnCheck := (kvTok args "cncheck").getD "0" = "1",
+                   serverName := sn, hostports := hosts, terms := terms },
+         cert := { cns := cns, sans := sans }, connected := connected, realm := realm }
+
+/-- the library's answers as recorded from the real calls -/
+def libOf (tr : List String) : Cert.Lib :=
+  let toks := tr.map (·.splitOn ":")
+  { rx := fun pat v => toks.any fun t => match t with
+      | ["rx", p, s, r] => ofHex p == some pat && ofHex s == some v && r.startsWith "m"
+      | _ => false
+    hostCheck := fun h cn => (toks.findSome? fun t => match t with
+      | ["hc", hh, c, r] => if ofHex hh == some h && (c == "1") == cn then r.toInt? else none
+      | _ => none).getD 0
+    ipCheck := fun h => (toks.findSome? fun t => match t with
+      | ["ipc", hh, r] => if ofHex hh == some h then r.toInt? else none
+      | _ => none).getD 0
+    isIp := fun h => toks.any fun t => match t with
+      | ["pton", _, hh, r] => ofHex hh == some h && r == "1"
+      | _ => false }
+
+def vcertModel (args tr : List String) : String :=
+  match parseVCert args with
+  | none => "bad-op"
+  | some v => if Cert.verifyConf (libOf tr) v.conf v.cert v.connected v.realm then "ok=1" else "ok=0"
+
+def vcertSpec (args tr impl : List String) : String :=
+  if impl.any (·.startsWith "crash") then "bad sanitizer-or-crash" else
+  match parseVCert args with
+  | none => "bad-op"
+  | some v =>
+    if impl.head? == some "ok=1" && !Spec.Cert.acceptB (libOf tr) v.conf v.cert v.connected v.realm then
+      "bad C15:accepted-a-certificate-that-does-not-match-the-block"
+    else "ok"
 
 /-- canonical line of the dynamic-lookup op, as the harness prints it -/
 def showLookup (r : Option (Bytes × DynRealm.Lookup)) : String :=
